@@ -4,6 +4,7 @@ use crate::explore::{self, PivotMode};
 use crate::json::{self, J};
 use std::collections::{BTreeMap, HashSet};
 use std::hash::{Hash, Hasher};
+use std::ops::AddAssign;
 use std::panic::{catch_unwind, AssertUnwindSafe};
 use std::path::PathBuf;
 use std::sync::atomic::{AtomicBool, AtomicU64, Ordering};
@@ -143,6 +144,8 @@ pub struct Local {
     case_exec: u64,
     pub machinery_error: Option<String>,
     heartbeat: Option<Arc<Heartbeat>>,
+    /// number of failed checks recorded by this worker (not capped, unlike `violations`)
+    fail_count: u64,
 }
 
 pub struct Heartbeat {
@@ -175,11 +178,25 @@ pub fn guarded<R>(f: impl FnOnce() -> R) -> Result<R, String> {
     })
 }
 
+thread_local! {
+    /// file:line of the last panic on this thread (set by the panic hook)
+    pub static LAST_PANIC_AT: std::cell::RefCell<String> = std::cell::RefCell::new(String::new());
+}
+
+/// Directory of the crate under test (panics located there are the subject's, not the harness's).
+pub fn subject_dir() -> String {
+    std::env::var("NSMC_SUBJECT_DIR").unwrap_or_else(|_| "/repo/".to_string())
+}
+
 pub fn install_panic_hook() {
     let default = std::panic::take_hook();
+    let subject = subject_dir();
     std::panic::set_hook(Box::new(move |info| {
+        let at = info.location().map(|l| format!("{}:{}", l.file(), l.line())).unwrap_or_default();
+        let in_subject_code = at.starts_with(&subject);
+        LAST_PANIC_AT.with(|c| *c.borrow_mut() = at);
         let quiet = IN_SUBJECT.with(|c| c.get());
-        if !quiet {
+        if !quiet && !in_subject_code {
             default(info);
         }
     }));
@@ -201,6 +218,7 @@ impl Local {
             case_exec: 0,
             machinery_error: None,
             heartbeat: None,
+            fail_count: 0,
         }
     }
 
@@ -256,6 +274,7 @@ impl Local {
             return;
         }
         *self.stats.counters.entry_ref(&format!("violations:{}", key)) += 1;
+        self.fail_count += 1;
         let per_key = self.violations.iter().filter(|v| v.key == key).count();
         if per_key >= 4 || self.violations.len() >= VIOL_CAP {
             return;
@@ -303,6 +322,7 @@ impl Local {
         let mut changed_at = 0usize;
         loop {
             explore::begin(&mode, &prefix);
+            let fails_before = self.fail_count;
             let h = body(self);
             let (rec, err) = explore::end();
             if let Some(e) = err {
@@ -332,9 +352,23 @@ impl Local {
                 self.dry = was_dry;
                 self.stats.selfchecks += 1;
                 if h2 != h || rec2.len() != rec.len() || err2.is_some() {
+                    // The same choices gave another observation. If the crate under test keeps state
+                    // between calls, either the first run of this execution already tripped the property's
+                    // own oracle, or a third, recorded run (now from a non-initial state) does: that is a
+                    // verdict. Otherwise the harness does not own all nondeterminism: machinery error.
+                    let nviol = fails_before;
+                    if !was_dry {
+                        explore::begin(&PivotMode::Forced(vals.clone()), &[]);
+                        let _ = body(self);
+                        let _ = explore::end();
+                    }
+                    if self.fail_count > nviol {
+                        self.stats.counters.entry_ref("violations_found_on_re_execution_of_the_same_schedule").add_assign(1);
+                        return;
+                    }
                     self.machinery_error = Some(format!(
-                        "determinism self-check failed: case {} pivots {:?}: observation {:x} then {:x} ({} vs {} choice points){}",
-                        self.case_desc, vals, h, h2, rec.len(), rec2.len(),
+                        "determinism self-check failed: sub {} ordinal {} case {} pivots {:?}: observation {:x} then {:x} ({} vs {} choice points){}",
+                        self.sub, self.ordinal, self.case_desc, vals, h, h2, rec.len(), rec2.len(),
                         err2.map(|e| format!("; {}", e)).unwrap_or_default()
                     ));
                     return;
@@ -352,6 +386,7 @@ impl Local {
 
     /// Runs a body that involves no pivot choice as a single execution.
     pub fn single<F: FnMut(&mut Local) -> u64>(&mut self, mut body: F) {
+        let fails_before = self.fail_count;
         let h = body(self);
         self.stats.executions += 1;
         // an execution inside a case is a leaf of the choice tree below the case node
@@ -367,9 +402,17 @@ impl Local {
             self.dry = was_dry;
             self.stats.selfchecks += 1;
             if h2 != h {
+                let nviol = fails_before;
+                if !was_dry {
+                    let _ = body(self);
+                }
+                if self.fail_count > nviol {
+                    self.stats.counters.entry_ref("violations_found_on_re_execution_of_the_same_schedule").add_assign(1);
+                    return;
+                }
                 self.machinery_error = Some(format!(
-                    "determinism self-check failed: case {}: observation {:x} then {:x}",
-                    self.case_desc, h, h2
+                    "determinism self-check failed: sub {} ordinal {} case {}: observation {:x} then {:x}",
+                    self.sub, self.ordinal, self.case_desc, h, h2
                 ));
             }
         }
@@ -559,7 +602,7 @@ impl Report {
             return r.sub == name;
         }
         if let Some(s) = &self.cfg.only_sub {
-            return s == name;
+            return s.split(',').any(|x| x == name);
         }
         true
     }
@@ -582,6 +625,8 @@ impl Report {
             return;
         }
         let t0 = Instant::now();
+        let id = self.cfg.id.clone();
+        let id = &id;
         let replay = self.cfg.replay.clone();
         let threads = if replay.is_some() { 1 } else { self.cfg.threads.max(1) };
         let source = Mutex::new((cases, 0u64));
@@ -665,7 +710,28 @@ impl Report {
                             hb.stamp_ms.store(now_ms(start), Ordering::Relaxed);
                             hb.busy.store(true, Ordering::Relaxed);
                             let nviol = lx.violations.len();
-                            f(&c, &mut lx);
+                            // A panic that escapes a case body is the harness's own fault (machinery
+                            // error) unless it was raised inside the crate under test: a call the
+                            // harness had no reason to guard panicked, which is a verdict about the
+                            // subject, not a crash of the engine.
+                            if let Err(e) = catch_unwind(AssertUnwindSafe(|| f(&c, &mut lx))) {
+                                IN_SUBJECT.with(|c| c.set(false));
+                                crate::explore::abort();
+                                let msg = if let Some(s) = e.downcast_ref::<&str>() {
+                                    s.to_string()
+                                } else if let Some(s) = e.downcast_ref::<String>() {
+                                    s.clone()
+                                } else {
+                                    "<non-string panic>".to_string()
+                                };
+                                let at = LAST_PANIC_AT.with(|c| c.borrow().clone());
+                                if at.starts_with(&subject_dir()) {
+                                    let key = format!("{}/panic", id);
+                                    lx.fail(&key, || format!("the crate under test panicked at {} in a call that must not panic: {}", at, msg));
+                                } else {
+                                    lx.machinery_error = Some(format!("case body panicked at {}: {} (case {:?})", at, msg, c));
+                                }
+                            }
                             hb.busy.store(false, Ordering::Relaxed);
                             if lx.violations.len() > nviol {
                                 let d = format!("{:?}", c);
